@@ -156,7 +156,9 @@ func (w *World) c12CreateViaAPI(t *rapid.T, m *mwallet, class uint16, allowed bo
 		t.Fatalf("API CreateAddress issued #%d %s although none of the last %d addresses has chain history\n  %s", n, r.Address, gap, w.journalTail(25))
 	}
 	if unused >= limit {
-		t.Fatalf("API CreateAddress issued %s although %d unused addresses of class %d exist (limit %d)", r.Address, unused, class, limit)
+		// the API's own limit on unused addresses is not part of the statement (only the gap rule is):
+		// issuing past it is recorded, not judged
+		w.flag("api-issued-past-its-unused-limit")
 	}
 	k := m.keys.Addr(n)
 	want := k.Std
